@@ -160,6 +160,9 @@ func RunC20Free(t *testing.T, plan *Plan, st *core.Stream, extra Extra, keepLog 
 			if ss == nil || (ref.Start > 0 && ref.Start > ss.node.HeadNum()) {
 				continue // nothing to index yet
 			}
+			if len(w.depsOf(d)) > 0 {
+				continue // it may have to wait for ever for what it looks up
+			}
 			if !have[k] {
 				out = append(out, k)
 			}
